@@ -4,6 +4,7 @@ import ast
 
 from .core import ( rule, Result, AnalysisError, dotted, call_name, is_call_to, names_in, attrs_in, walk_no_nested,
                     norm_text, dotted_in, stmt_of, pmatch, pfind, txt )
+from .core import Matcher
 from .fold import try_fold
 from .cfg import CFG, INF
 
@@ -133,17 +134,20 @@ def r_limit( ctx ):
         else:
             res.bad( src, s, ( 'if %s: ' % norm_text( par.test ) if isinstance( par, ast.If ) else '' ) + norm_text( s ),
                      'a nested limit may only reduce the ending inherited from the enclosing parser, never extend it' )
-        # the value is sent + limit
-        if pmatch( v, 'source.sent + limit' ) or pmatch( v, 'limit + source.sent' ) or ( is_call_to( v, 'min' ) and 'source.sent+limit' in txt( v )):
+        # the value is sent + limit (the local that holds the resolved self.limit)
+        LIM = [ t.id for s_ in walk_no_nested( run ) if isinstance( s_, ast.Assign ) and pmatch( s_.value, 'self.limit' ) for t in s_.targets[:1] if isinstance( t, ast.Name ) ]
+        LIM = LIM[0] if LIM else 'limit'
+        if pmatch( v, 'source.sent + %s' % LIM ) or pmatch( v, '%s + source.sent' % LIM ) or ( is_call_to( v, 'min' ) and ( 'source.sent+%s' % LIM ) in txt( v )):
             res.ok( src, s, 'ending = source.sent + limit (absolute position)' )
         else:
             res.bad( src, s, s, 'the ending must be the absolute position source.sent + limit' )
     # limit resolution: string -> data.get( context( path, limit ), 0 ); callable -> call; int assert
-    if pfind( run, 'limit = data.get( limit_src, 0 )' ) and pfind( run, 'limit_src = self.context( path, limit_src )' ):
+    LM = Matcher()
+    if LM.find( run, '_src = self.context( path, _src )' ) is not None and LM.find( run, '_lim = data.get( _src, 0 )' ) is not None:
         res.ok( src, run, 'string limit resolved relative to the state context, default 0' )
     else:
         res.bad( src, run, 'state.run limit resolution', 'a data-path limit must be resolved through self.context( path, limit )' )
-    ints = [ a for a in ast.walk( run ) if isinstance( a, ast.Assert ) and pmatch( a.test, 'isinstance( limit, int )' ) ]
+    ints = [ a for a in ast.walk( run ) if isinstance( a, ast.Assert ) and pmatch( a.test, 'isinstance( _l, int )' ) ]
     if ints:
         res.ok( src, ints[0], 'assert isinstance( limit, int )' )
     else:
@@ -174,7 +178,9 @@ def r_limit( ctx ):
         res.bad( src, run, 'state.run', 'the post-run assertion sent <= ending is missing (overrun would go unnoticed)' )
     # transition: limited => lookup key None
     tr = src.get( 'state.transition' )
-    lim = [ s for s in walk_no_nested( tr ) if isinstance( s, ast.Assign ) and dotted( s.targets[0] ) == 'limited' ]
+    lim = [ s for s in walk_no_nested( tr ) if isinstance( s, ast.Assign ) and isinstance( s.targets[0], ast.Name )
+            and 'ending' in names_in( s.value ) and 'sent' in attrs_in( s.value ) ]
+    LIMITED = lim[0].targets[0].id if lim else 'limited'
     good = False
     for s in lim:
         if pmatch( s.value, 'ending is not None and source.sent >= ending' ) or pmatch( s.value, 'ending is not None and ending <= source.sent' ):
@@ -185,7 +191,10 @@ def r_limit( ctx ):
             res.bad( src, s, s, 'a state is limited as soon as source.sent >= ending (`>` lets one symbol past the limit)' )
     if not lim:
         res.bad( src, tr, 'state.transition', 'no `limited` computation from ending' )
-    inp = pfind( tr, 'inp = None if limited else source.peek()' ) + pfind( tr, 'inp = source.peek() if not limited else None' )
+    inp = pfind( tr, '_i = None if %s else source.peek()' % LIMITED ) + pfind( tr, '_i = source.peek() if not %s else None' % LIMITED )
+    # ... and that symbol is the one the transition table is indexed with
+    if inp and not pfind( tr, 'self.__getitem__( %s )' % inp[0][1]['_i'].id ) and not pfind( tr, 'self[%s]' % inp[0][1]['_i'].id ):
+        inp = []
     if inp:
         res.ok( src, inp[0][0], 'a limited state looks up the None transition only' )
     else:
@@ -210,7 +219,7 @@ def r_repeat( ctx ):
     if len( loops ) != 1:
         raise AnalysisError( 'dfa_base.delegate: outer cycle loop not found' )
     lp = loops[0]
-    if pmatch( lp.test, 'self.loop() and not stasis' ) or pmatch( lp.test, 'not stasis and self.loop()' ):
+    if pmatch( lp.test, 'self.loop() and not _st' ) or pmatch( lp.test, 'not _st and self.loop()' ):
         res.ok( src, lp, 'cycle loop runs while self.loop() and not stasis' )
     else:
         res.bad( src, lp, lp.test, 'the cycle loop must run while self.loop() (cycles remain) and no stasis' )
@@ -248,7 +257,8 @@ def r_repeat( ctx ):
     else:
         res.bad( src, tm, r[0].value if r else 'terminal', 'a dfa is terminal only when flagged, its sub-machine is terminal and all cycles are done' )
     # repeat resolution
-    if pfind( dl, 'self.final = data.get( final_src, 0 )' ) and pfind( dl, 'final_src = self.context( path, final_src )' ):
+    RM = Matcher()
+    if RM.find( dl, '_src = self.context( path, _src )' ) is not None and RM.find( dl, 'self.final = data.get( _src, 0 )' ) is not None:
         res.ok( src, dl, 'string repeat resolved relative to the dfa context, default 0' )
     else:
         res.bad( src, dl, 'repeat resolution', 'a data-path repeat must be resolved through self.context( path, repeat )' )
@@ -286,8 +296,9 @@ def r_progress( ctx ):
         raise AnalysisError( 'state.run: accept loop not found' )
     body = acc[0].body
     cr = [ s for s in body if isinstance( s, ast.Assign ) and crumb_ok( s.value ) ]
-    chk = [ s for s in body if isinstance( s, ast.Assert ) and cr and pmatch( s.test, '%s not in seen' % cr[0].targets[0].id ) ] if cr else []
-    addd = [ s for s in body if cr and pmatch( s, 'seen.add( %s )' % cr[0].targets[0].id ) ] if cr else []
+    A = Matcher()
+    chk = [ s for s in body if isinstance( s, ast.Assert ) and cr and A.m( s.test, '%s not in _seen' % cr[0].targets[0].id ) ] if cr else []
+    addd = [ s for s in body if cr and chk and pmatch( s, '%s.add( %s )' % ( A.name( '_seen' ), cr[0].targets[0].id )) ] if cr else []
     yl = [ s for s in body if isinstance( s, ast.Expr ) and isinstance( s.value, ast.Yield ) ]
     if cr and chk and addd and yl and body.index( chk[0] ) < body.index( addd[0] ) < body.index( yl[0] ):
         res.ok( src, acc[0], 'accept loop: crumb (None, peek, sent) asserted unseen, recorded, then yield' )
@@ -299,23 +310,33 @@ def r_progress( ctx ):
         raise AnalysisError( 'state.run: transition loop not found' )
     body = trl[0].body
     cr = [ s for s in body if isinstance( s, ast.Assign ) and crumb_ok( s.value ) ]
-    brk = [ s for s in body if isinstance( s, ast.If ) and cr and pmatch( s.test, '%s in seen' % cr[0].targets[0].id ) and any( isinstance( b, ( ast.Break, ast.Raise, ast.Return )) for b in s.body ) ]
-    addd = [ s for s in body if cr and pmatch( s, 'seen.add( %s )' % cr[0].targets[0].id ) ]
+    B = Matcher()
+    brk = [ s for s in body if isinstance( s, ast.If ) and cr and B.m( s.test, '%s in _seen' % cr[0].targets[0].id ) and any( isinstance( b, ( ast.Break, ast.Raise, ast.Return )) for b in s.body ) ]
+    addd = [ s for s in body if cr and brk and pmatch( s, '%s.add( %s )' % ( B.name( '_seen' ), cr[0].targets[0].id )) ]
     if cr and brk and addd:
         res.ok( src, trl[0], 'transition loop: leaves when crumb (state, peek, sent) repeats' )
     else:
         res.bad( src, trl[0], 'state.run transition loop', 'repeating (state, next symbol, sent) must end the transition loop' )
     # 3. delegate stasis
     cr = [ s for s in ast.walk( dl ) if isinstance( s, ast.Assign ) and crumb_ok( s.value ) ]
-    st = [ s for s in ast.walk( dl ) if isinstance( s, ast.Assign ) and dotted( s.targets[0] ) == 'stasis' and cr and pmatch( s.value, '%s in seen' % cr[0].targets[0].id ) ]
-    ifs = [ s for s in ast.walk( dl ) if isinstance( s, ast.If ) and pmatch( s.test, 'stasis' ) and any( isinstance( b, ast.Break ) for b in s.body )
-            and any( pmatch( b, 'done = True' ) for b in s.body ) ]
-    addd = [ s for s in ast.walk( dl ) if cr and pmatch( s, 'seen.add( %s )' % cr[0].targets[0].id ) ]
+    C = Matcher()
+    st = [ s for s in ast.walk( dl ) if isinstance( s, ast.Assign ) and isinstance( s.targets[0], ast.Name ) and cr and C.m( s.value, '%s in _seen' % cr[0].targets[0].id ) ]
+    STASIS = st[0].targets[0].id if st else 'stasis'
+    SEEN = C.name( '_seen' ) or 'seen'
+    inner = [ w for w in ast.walk( dl ) if isinstance( w, ast.While ) and isinstance( w.test, ast.UnaryOp ) and isinstance( w.test.op, ast.Not ) and isinstance( w.test.operand, ast.Name ) ]
+    DONE = inner[0].test.operand.id if inner else 'done'
+    ifs = [ s for s in ast.walk( dl ) if isinstance( s, ast.If ) and pmatch( s.test, STASIS ) and any( isinstance( b, ast.Break ) for b in s.body )
+            and any( pmatch( b, '%s = True' % DONE ) for b in s.body ) ]
+    addd = [ s for s in ast.walk( dl ) if cr and pmatch( s, '%s.add( %s )' % ( SEEN, cr[0].targets[0].id )) ]
+    # the outer cycle loop must stop on stasis
+    outer = [ w for w in dl.body if isinstance( w, ast.While ) ]
+    if not ( outer and ( pmatch( outer[0].test, 'self.loop() and not %s' % STASIS ) or pmatch( outer[0].test, 'not %s and self.loop()' % STASIS ))):
+        ifs = []
     if cr and st and ifs and addd:
         res.ok( src, st[0], 'delegate: stasis = crumb in seen -> done, break; outer loop stops on stasis' )
     else:
         res.bad( src, dl, 'dfa_base.delegate stasis detection', 'the sub-machine loop must stop when (target, next symbol, sent) repeats' )
-    seeds = pfind( dl, 'seen = set( [ ( self.current, source.peek(), source.sent ) ] )' )
+    seeds = pfind( dl, '%s = set( [ ( self.current, source.peek(), source.sent ) ] )' % SEEN )
     if seeds:
         res.ok( src, seeds[0][0], 'delegate: seen seeded with the entry crumb each cycle' )
     else:
@@ -328,7 +349,8 @@ def r_progress( ctx ):
     else:
         res.bad( src, dl, 'dfa_base.delegate', 'ending a cycle in a non-terminal state must raise NonTerminal (input rejected, not absorbed)' )
     # `if not transit: done = True`: each state is run once unless re-entered
-    once = [ s for s in ast.walk( dl ) if isinstance( s, ast.If ) and pmatch( s.test, 'not transit' ) and any( pmatch( b, 'done = True' ) for b in s.body ) ]
+    once = [ s for s in ast.walk( dl ) if isinstance( s, ast.If ) and pmatch( s.test, 'not _t' ) and any( pmatch( b, '%s = True' % DONE ) for b in s.body )
+             and isinstance( s.test.operand, ast.Name ) and [ a for a in ast.walk( dl ) if pmatch( a, '%s = True' % s.test.operand.id ) ] ]
     if once:
         res.ok( src, once[0], 'a state that produced no transition ends the cycle (never re-processed)' )
     else:
